@@ -20,6 +20,7 @@ DOC = {
         'C13.R2': 'rehash: drop(original tx) dominates the recv loop; tasks capture a Sender clone; the loop leaves only on Err(recv); every received item is added; the throttle guard is acquired before spawn and dropped inside the task',
         'C13.R3': 'no HashMap/HashSet/DashMap iteration reachable from group_files/write_report (named exceptions)',
         'C13.R4': 'each FilePos-FileLen / FileLen-FileLen is dominated by a comparison of the same operands or its right operand is clamped by min(_, left)',
+        'C13.R12': 'every --threads configuration terminates, 0 (= automatic) included: no semaphore is sized by a configured pool size (re-evaluates C19.R9)',
         'C13.R11': 'every run terminates, whatever the transform program does with $OUT: transform::execute opens its own write end of the named pipe before it spawns the child and before the reader opens the pipe, hands it to the thread that waits for the child, and that thread closes it after the child has exited (no second look-up of the pipe by its path); hash_transformed reports a pipe that was replaced',
         'C13.R10': 'the number of files that can be hashed does not depend on a race between the hashing thread and a helper thread: blocking helper threads are joined (re-evaluates C19.R8)',
         'C13.R9': 'every run terminates: a pipe handed to the transform program as its standard output is read - the Output variants under which build_command uses Stdio::piped() are among those under which execute moves child.stdout into the stream it returns (otherwise the child blocks on a full pipe while fclones waits for it)',
@@ -47,6 +48,7 @@ def run(ctx):
     from .common import reevaluate
     from . import c19
     reevaluate(ctx, 'C13.R10', c19.r8)
+    reevaluate(ctx, 'C13.R12', c19.r9)
     from . import c09
     reevaluate(ctx, 'C13.R8', c09.r11)
     reevaluate(ctx, 'C13.R8', c09.r11b)
